@@ -137,8 +137,8 @@ def gen_stim(rng, cfg, devs, kmax=3, allowed=None):
     return sorted((rng.randrange(50, 2900) * 1_000_000 + 137 * (k + 1), rng.choice(dl)) for k in range(rng.randint(0, kmax)))
 
 
-def run_case(cfg, devs, speed, initial, stim, t_end=T_END):
-    r = slevel.run_internal(cfg, devs, speed, initial, stim, t_end)
+def run_case(cfg, devs, speed, initial, stim, t_end=T_END, naming=None):
+    r = slevel.run_internal(cfg, devs, speed, initial, stim, t_end, naming=naming)
     term = slevel.render_sim_case(cfg, devs, speed, initial, stim, t_end, r)
     return r, term
 
@@ -165,7 +165,7 @@ def gen_single_cases(tier, rng, emphasis):
         for cfg in small_nestings():
             for pol in ((0,), (0, 1, 2)):
                 devs = slevel.gen_devs(rng, cfg, pol)
-                cases.append(dict(cfg=cfg, devs=devs, speed=(1, 1), initial=rng.choice([0, 0, 1_000_000]), stim=[]))
+                cases.append(dict(cfg=cfg, devs=devs, speed=(1, 1), initial=rng.choice([0, 0, 1_000_000, -5_000_000_000, -1]), stim=[]))
                 n_ex += 1
     nrand = {"quick": 90, "thorough": 1500}[tier]
     for _ in range(nrand):
@@ -176,14 +176,17 @@ def gen_single_cases(tier, rng, emphasis):
         speed = rng.choice([(1, 1), (1, 1), (2, 1), (1, 2)])
         stim = gen_stim(rng, cfg, devs)
         # callbacks: also negative initial times, so that callback chains pass through (and fall due at) simulation time 0
-        initials = [0, 0, 2_000_000, -3_000_000_000, -700_000_000, -1_000_000_000] if emphasis == "callbacks" else [0, 0, 2_000_000]
+        initials = [0, 0, 2_000_000, -3_000_000_000, -700_000_000, -1_000_000_000] if emphasis == "callbacks" else [0, 0, 2_000_000, -2_000_000_000]
         cases.append(dict(cfg=cfg, devs=devs, speed=speed, initial=rng.choice(initials), stim=stim))
     return cases, n_ex
 
 
 def describe(case):
-    return dict(cfg={str(k): v for k, v in case["cfg"].items()}, devs={str(k): v for k, v in case["devs"].items()},
-                speed=case["speed"], initial=case["initial"], stim=case["stim"])
+    d = dict(cfg={str(k): v for k, v in case["cfg"].items()}, devs={str(k): v for k, v in case["devs"].items()},
+             speed=case["speed"], initial=case["initial"], stim=case["stim"])
+    if case.get("naming"):
+        d["naming"] = case["naming"]
+    return d
 
 
 def nontrivial(case, run):
@@ -218,8 +221,10 @@ def main_S(pid, tier, seed, prop_codes, prop_mod, serving_files, what, emphasis,
     rng = random.Random(seed)
     cases, n_ex = gen_single_cases(tier, rng, emphasis)
     runs, terms = [], []
-    for c in cases:
-        r, term = run_case(c["cfg"], c["devs"], c["speed"], c["initial"], c["stim"])
+    for i, c in enumerate(cases):
+        if i % 5 == 4:
+            c["naming"] = "short"      # component names of one to three letters, parts of one another and of "external" / "expose"
+        r, term = run_case(c["cfg"], c["devs"], c["speed"], c["initial"], c["stim"], naming=c.get("naming"))
         runs.append(r)
         terms.append(term)
     bad = run_shards(pid, HEADER, "sim_case", "check_sim_all", terms, shard_size=12)
@@ -250,7 +255,7 @@ def replay_S(rp):
                         conns=[tuple(x) for x in v["conns"]]) for k, v in rp["cfg"].items()}
     devs = {int(k): tuple(v) for k, v in rp["devs"].items()}
     stim = [tuple(s) for s in rp["stim"]]
-    r, term = run_case(cfg, devs, tuple(rp["speed"]), rp["initial"], stim)
+    r, term = run_case(cfg, devs, tuple(rp["speed"]), rp["initial"], stim, naming=rp.get("naming"))
     bad = run_shards("replay", HEADER, "sim_case", "check_sim_all", [term])
     print("config:", cfg)
     print("observed:", r["per"], r["error"], r["errors"][:2])
@@ -287,9 +292,10 @@ def main_pairs(pid, tier, seed, prop_codes, prop_mod, serving_files, what, mode,
             stim = gen_stim(rng, cfg, devs)
             # integer speeds only: with a fractional ns conversion the whole-ns rounding of an interrupt stamp
             # depends on the real time of the previous tick, which an unrelated part legitimately moves
-            # ... started at time 0, after a day, or with the wall clock (ns since 1970) as the initial time
+            # ... started at time 0, after a day, with the wall clock (ns since 1970) as the initial time, or before time 0 (callback
+            # chains then fall due at simulation time 0 exactly)
             b = dict(cfg=cfg, devs=devs, speed=rng.choice([(1, 1), (2, 1)]), stim=stim,
-                     initial=rng.choice([0, 0, 0, 86_400_000_000_000, 1_700_000_000_000_000_000]))
+                     initial=rng.choice([0, 0, 0, 86_400_000_000_000, 1_700_000_000_000_000_000, -600_000_000, -1_000_000_000, -2_100_000_000]))
             pairs.append((b, extend(rng, b)))
         check_fn = "check_ext_pair"
     runs, terms = [], []
